@@ -129,6 +129,15 @@ def U_OPS() -> Dict[str, Callable]:
         "ktensor_innerprod": lambda S, a: ttb.ktensor(a["U"], np.array([2.0, -1.0])).innerprod(S),
         "tensor_innerprod": lambda S, a: T(a["Dn"]).innerprod(S),
         "tensor_eq": lambda S, a: T(a["Dn"]).isequal(S),
+        # the matricized form is stored in one canonical order whatever the stored order of the operand: comparing it
+        # with the matricization of the sorted operand is TRUE in every stored order
+        "to_sptenmat_isequal_sorted": lambda S, a: bool(S.to_sptenmat(np.array([0])).isequal(_resort(S).to_sptenmat(np.array([0])))),
+        "to_sptenmat_last_isequal_sorted": lambda S, a: bool(S.to_sptenmat(np.array([a["N"] - 1])).isequal(
+            _resort(S).to_sptenmat(np.array([a["N"] - 1])))),
+        "to_sptenmat_stored": lambda S, a: (lambda M: np.hstack([M.subs.astype(float), M.vals.astype(float)]) if M.subs.size else np.zeros((0, 3)))(S.to_sptenmat(np.array([a["N"] - 1]))),
+        # products that underflow to exactly zero are not entries
+        "mul_scalar_underflow": lambda S, a: ttb.sptensor(S.subs.copy(), S.vals.astype(float) * 2.0 ** -600, S.shape) * 2.0 ** -600,
+        "rmul_scalar_underflow": lambda S, a: 2.0 ** -600 * ttb.sptensor(S.subs.copy(), S.vals.astype(float) * 2.0 ** -600, S.shape),
         # the same array at values that are not dyadic (sums of tenths depend on the order of summation), compared
         # with its own lexicographically sorted / reversed storage: equal in every stored order
         "isequal_sorted_tenths": lambda S, a: bool(_tenths(S).isequal(_tenths(S, "sorted"))),
@@ -137,6 +146,14 @@ def U_OPS() -> Dict[str, Callable]:
         "innerprod_sorted_tenths": lambda S, a: bool(abs(_tenths(S).innerprod(_tenths(S, "sorted")) - _tenths(S).norm() ** 2) < 1e-12),
     }
     return ops
+
+
+def _resort(S):
+    import bind
+    if len(S.subs) == 0:
+        return S.copy()
+    idx = np.lexsort(S.subs.T[::-1])
+    return bind.ttb.sptensor(S.subs[idx].copy(), S.vals[idx].copy(), S.shape)
 
 
 def _tenths(S, order=""):
@@ -209,7 +226,8 @@ STRICT = ["add", "sub", "mul", "and", "or", "xor", "eq", "ne", "lt", "le", "gt",
           "eq_scalar", "ne_scalar", "lt_scalar", "ge_scalar0", "gt_scalar_neg", "and_scalar", "eq_dense",
           "ne_dense", "le_dense", "gt_dense", "and_dense", "mul_dense_zeros", "setitem_region", "copy",
           "permute_rev", "reshape_flat", "squeeze", "ones", "neg", "pos",
-          "setitem_subs_mixed", "setitem_subs_mixed_rev", "mul_scalar_zero", "rmul_scalar_zero", "mul_ktensor_zero_row", "scale_vec_zero", "scale_dense_zero", "div"]
+          "setitem_subs_mixed", "setitem_subs_mixed_rev", "mul_scalar_zero", "rmul_scalar_zero", "mul_ktensor_zero_row", "scale_vec_zero", "scale_dense_zero", "div",
+          "mul_scalar_underflow", "rmul_scalar_underflow"]
 
 
 def applicable(op: str, shape) -> bool:
